@@ -92,7 +92,8 @@ func padVarint(b []byte) []byte {
 }
 
 var elemMutations = []string{"omit-default", "omit-default", "omit-default", "omit-field", "drop-suffix", "empty", "swap",
-	"dup-field", "non-shortest", "trailing-byte", "unknown-field", "bool-2", "wrong-wiretype", "zero-len-tail"}
+	"dup-field", "non-shortest", "trailing-byte", "unknown-field", "bool-2", "wrong-wiretype", "zero-len-tail",
+	"big-key", "big-key", "big-len"}
 
 // mutElem returns (canonical base, mutant, kind). The base may differ from the input (omit-default
 // first sets a field to its default value so that it can be left out).
@@ -198,6 +199,11 @@ func mutElem(rng *rand.Rand, schema string, elem []byte, kind string) ([]byte, [
 			_ = i
 		}
 		return mutElem(rng, schema, elem, "non-shortest")
+	case "big-key", "big-len":
+		// one key / length prefix as a large shortest-form varint with the expected low bits (bigvarint.go)
+		if m, _, ok := BigVarint(rng, s, elem, kind); ok {
+			return elem, m, kind
+		}
 	case "wrong-wiretype":
 		i := rng.Intn(len(fs))
 		m := cp()
@@ -291,7 +297,12 @@ func genEntryCases(rng *rand.Rand, tier string) []corr.Case {
 				}
 			default:
 				env := buildEnvelope(hdr, txs, assets)
-				switch rng.Intn(6) {
+				switch rng.Intn(7) {
+				case 6:
+					// key / length prefix of one envelope element as a large shortest-form varint
+					if m, _, ok := BigVarint(rng, nil, env, ""); ok {
+						env = m
+					}
 				case 0:
 					env = buildEnvelope(nil, txs, assets)
 				case 1:
